@@ -16,6 +16,7 @@ import (
 	"sort"
 	"strconv"
 	"strings"
+	"unsafe"
 )
 
 type draw struct {
@@ -271,68 +272,80 @@ func DeepEqual(a, b any) bool { return reflect.DeepEqual(a, b) }
 // DeepEqualNilEmpty is DeepEqual where nil and empty slices/maps are the same.
 func DeepEqualNilEmpty(a, b any) bool { return DumpNativeOpts(a, true) == DumpNativeOpts(b, true) }
 
-// SharedHeap names mutable heap shared by a and b ("" when disjoint).
+// SharedHeap classifies the mutable heap shared by a and b: "" (disjoint),
+// "payload" (only objects held inside interface values, i.e. `any` payloads) or
+// "structure" (a pointee, slice backing or map reached through declared fields).
 func SharedHeap(a, b any) string {
-	pa, pb := map[uintptr]string{}, map[uintptr]string{}
-	collectPtrs(reflect.ValueOf(a), pa, "a")
-	collectPtrs(reflect.ValueOf(b), pb, "b")
-	var shared []string
-	for p, where := range pa {
-		if _, ok := pb[p]; ok {
-			shared = append(shared, where)
+	pa, pb := map[uintptr]bool{}, map[uintptr]bool{}
+	collectPtrs(reflect.ValueOf(a), pa, false)
+	collectPtrs(reflect.ValueOf(b), pb, false)
+	res := ""
+	for p, viaA := range pa {
+		if viaB, ok := pb[p]; ok {
+			if viaA && viaB {
+				if res == "" {
+					res = "payload"
+				}
+			} else {
+				res = "structure"
+			}
 		}
 	}
-	sort.Strings(shared)
-	return strings.Join(shared, ",")
+	return res
 }
 
-func collectPtrs(v reflect.Value, out map[uintptr]string, path string) {
+// collectPtrs records every mutable heap object with whether it was only reached
+// through an interface value.
+func collectPtrs(v reflect.Value, out map[uintptr]bool, via bool) {
 	if !v.IsValid() {
 		return
+	}
+	visit := func(p uintptr) bool {
+		old, seen := out[p]
+		if seen && !(old && !via) {
+			return false
+		}
+		out[p] = via
+		return true
 	}
 	switch v.Kind() {
 	case reflect.Ptr:
 		if v.IsNil() {
 			return
 		}
-		if _, ok := out[v.Pointer()]; ok {
-			return
+		if visit(v.Pointer()) {
+			collectPtrs(v.Elem(), out, via)
 		}
-		out[v.Pointer()] = path
-		collectPtrs(v.Elem(), out, path+".*")
 	case reflect.Interface:
 		if !v.IsNil() {
-			collectPtrs(v.Elem(), out, path)
+			collectPtrs(v.Elem(), out, true)
 		}
 	case reflect.Slice:
 		if v.IsNil() || v.Cap() == 0 {
 			return
 		}
-		if _, ok := out[v.Pointer()]; !ok {
-			out[v.Pointer()] = path + "[]"
-		}
-		for i := 0; i < v.Len(); i++ {
-			collectPtrs(v.Index(i), out, fmt.Sprintf("%s[%d]", path, i))
+		if visit(v.Pointer()) {
+			for i := 0; i < v.Len(); i++ {
+				collectPtrs(v.Index(i), out, via)
+			}
 		}
 	case reflect.Array:
 		for i := 0; i < v.Len(); i++ {
-			collectPtrs(v.Index(i), out, fmt.Sprintf("%s[%d]", path, i))
+			collectPtrs(v.Index(i), out, via)
 		}
 	case reflect.Map:
 		if v.IsNil() {
 			return
 		}
-		if _, ok := out[v.Pointer()]; ok {
-			return
-		}
-		out[v.Pointer()] = path + "{}"
-		it := v.MapRange()
-		for it.Next() {
-			collectPtrs(it.Value(), out, path+"{v}")
+		if visit(v.Pointer()) {
+			it := v.MapRange()
+			for it.Next() {
+				collectPtrs(it.Value(), out, via)
+			}
 		}
 	case reflect.Struct:
 		for i := 0; i < v.NumField(); i++ {
-			collectPtrs(v.Field(i), out, path+"."+v.Type().Field(i).Name)
+			collectPtrs(v.Field(i), out, via)
 		}
 	}
 }
@@ -491,5 +504,240 @@ func RunReplay(entries map[string]func()) {
 		fmt.Println("VERIF-OUTCOME: assert-failed")
 	} else {
 		fmt.Println("VERIF-OUTCOME: ok")
+	}
+}
+
+// ---------------------------------------------------------------- SymValue / Clone
+
+// SymValue builds an arbitrary value of type T (see engine/symvalue.go, which this
+// mirrors draw for draw): mode 0 populates every pointer/slice/map down to depth
+// with symbolic leaves on one path; mode 1 also forks nil-ness/lengths at the top level.
+func SymValue[T any](name string, depth, mode int) T {
+	var out T
+	g := &symGen{mode: mode}
+	if mode == 1 {
+		g.pick = Choose(countTop(reflect.TypeOf(&out).Elem()) + 1)
+	}
+	g.gen(reflect.ValueOf(&out).Elem(), depth, true)
+	return out
+}
+
+type symGen struct {
+	mode      int
+	anyRR     int
+	pick, pos int
+}
+
+func countTop(t reflect.Type) int {
+	switch t.Kind() {
+	case reflect.Ptr, reflect.Slice, reflect.Map:
+		return 1
+	case reflect.Interface:
+		if t.NumMethod() > 0 {
+			return 0
+		}
+		return 1
+	case reflect.Struct:
+		n := 0
+		for i := 0; i < t.NumField(); i++ {
+			n += countTop(t.Field(i).Type)
+		}
+		return n
+	case reflect.Array:
+		return t.Len() * countTop(t.Elem())
+	}
+	return 0
+}
+
+func (g *symGen) populated() bool {
+	p := g.pos
+	g.pos++
+	return p == g.pick
+}
+
+func settable(v reflect.Value) reflect.Value {
+	if v.CanSet() {
+		return v
+	}
+	return reflect.NewAt(v.Type(), unsafe.Pointer(v.UnsafeAddr())).Elem()
+}
+
+func (g *symGen) choose(n int) int { return Choose(n) }
+
+func (g *symGen) gen(v reflect.Value, depth int, top bool) {
+	v = settable(v)
+	fork := g.mode == 1 && top
+	switch v.Kind() {
+	case reflect.Bool:
+		v.SetBool(Bool(""))
+	case reflect.Int, reflect.Int8, reflect.Int16, reflect.Int32, reflect.Int64:
+		v.SetInt(intVal(next("int")))
+	case reflect.Uint, reflect.Uint8, reflect.Uint16, reflect.Uint32, reflect.Uint64, reflect.Uintptr:
+		v.SetUint(uint64(intVal(next("uint"))))
+	case reflect.Float32, reflect.Float64:
+		v.SetFloat(float64(intVal(next("int"))))
+	case reflect.String:
+		v.SetString(Str("", "a", "b", "c"))
+	case reflect.Ptr:
+		if depth <= 0 {
+			return
+		}
+		if fork && !g.populated() {
+			return
+		}
+		p := reflect.New(v.Type().Elem())
+		g.gen(p.Elem(), depth-1, false)
+		v.Set(p)
+	case reflect.Slice:
+		if depth <= 0 {
+			return
+		}
+		n := 1
+		if fork {
+			if !g.populated() {
+				return
+			}
+			n = 2
+		}
+		s := reflect.MakeSlice(v.Type(), n, n)
+		for i := 0; i < n; i++ {
+			g.gen(s.Index(i), depth-1, false)
+		}
+		v.Set(s)
+	case reflect.Map:
+		if depth <= 0 {
+			return
+		}
+		if fork && !g.populated() {
+			return
+		}
+		m := reflect.MakeMap(v.Type())
+		k := reflect.New(v.Type().Key()).Elem()
+		g.gen(k, depth-1, false)
+		e := reflect.New(v.Type().Elem()).Elem()
+		g.gen(e, depth-1, false)
+		m.SetMapIndex(k, e)
+		v.Set(m)
+	case reflect.Struct:
+		if strings.HasSuffix(v.Type().PkgPath(), "internal/orderedmap") && strings.HasPrefix(v.Type().Name(), "Map[") && v.NumField() == 2 {
+			// representation invariant of orderedmap.Map: order lists exactly the keys of records
+			if depth <= 0 {
+				return
+			}
+			rec, ord := settable(v.Field(0)), settable(v.Field(1))
+			m := reflect.MakeMap(rec.Type())
+			k := reflect.New(rec.Type().Key()).Elem()
+			g.gen(k, depth-1, false)
+			e := reflect.New(rec.Type().Elem()).Elem()
+			g.gen(e, depth-1, false)
+			m.SetMapIndex(k, e)
+			rec.Set(m)
+			o := reflect.MakeSlice(ord.Type(), 1, 1)
+			o.Index(0).Set(k)
+			ord.Set(o)
+			return
+		}
+		for i := 0; i < v.NumField(); i++ {
+			g.gen(v.Field(i), depth, top)
+		}
+	case reflect.Array:
+		for i := 0; i < v.Len(); i++ {
+			g.gen(v.Index(i), depth, false)
+		}
+	case reflect.Interface:
+		if v.Type().NumMethod() > 0 {
+			return
+		}
+		k := g.anyRR % 5
+		if fork {
+			if !g.populated() {
+				return
+			}
+			k = g.choose(5)
+		}
+		g.anyRR++
+		if depth <= 0 && k >= 3 {
+			k = 0
+		}
+		switch k {
+		case 0:
+			v.Set(reflect.ValueOf(Str("", "a", "b", "c")))
+		case 1:
+			v.Set(reflect.ValueOf(intVal(next("int"))))
+		case 2:
+			v.Set(reflect.ValueOf(Bool("")))
+		case 3:
+			v.Set(reflect.ValueOf([]any{Str("", "a", "b", "c")}))
+		default:
+			v.Set(reflect.ValueOf(map[string]any{"k": Str("", "a", "b", "c")}))
+		}
+	}
+}
+
+// Clone deep-copies a value without using the code under test.
+func Clone[T any](x T) T {
+	var out T
+	cloneRec(reflect.ValueOf(&out).Elem(), reflect.ValueOf(&x).Elem(), map[uintptr]reflect.Value{})
+	return out
+}
+
+func cloneRec(dst, src reflect.Value, seen map[uintptr]reflect.Value) {
+	dst = settable(dst)
+	if !src.CanInterface() && src.CanAddr() {
+		src = reflect.NewAt(src.Type(), unsafe.Pointer(src.UnsafeAddr())).Elem()
+	}
+	switch src.Kind() {
+	case reflect.Ptr:
+		if src.IsNil() {
+			return
+		}
+		if p, ok := seen[src.Pointer()]; ok {
+			dst.Set(p)
+			return
+		}
+		p := reflect.New(src.Type().Elem())
+		seen[src.Pointer()] = p
+		cloneRec(p.Elem(), src.Elem(), seen)
+		dst.Set(p)
+	case reflect.Slice:
+		if src.IsNil() {
+			return
+		}
+		s := reflect.MakeSlice(src.Type(), src.Len(), src.Cap())
+		for i := 0; i < src.Len(); i++ {
+			cloneRec(s.Index(i), src.Index(i), seen)
+		}
+		dst.Set(s)
+	case reflect.Map:
+		if src.IsNil() {
+			return
+		}
+		m := reflect.MakeMapWithSize(src.Type(), src.Len())
+		it := src.MapRange()
+		for it.Next() {
+			k := reflect.New(src.Type().Key()).Elem()
+			cloneRec(k, it.Key(), seen)
+			e := reflect.New(src.Type().Elem()).Elem()
+			cloneRec(e, it.Value(), seen)
+			m.SetMapIndex(k, e)
+		}
+		dst.Set(m)
+	case reflect.Struct:
+		for i := 0; i < src.NumField(); i++ {
+			cloneRec(dst.Field(i), src.Field(i), seen)
+		}
+	case reflect.Array:
+		for i := 0; i < src.Len(); i++ {
+			cloneRec(dst.Index(i), src.Index(i), seen)
+		}
+	case reflect.Interface:
+		if src.IsNil() {
+			return
+		}
+		e := reflect.New(src.Elem().Type()).Elem()
+		cloneRec(e, src.Elem(), seen)
+		dst.Set(e)
+	default:
+		dst.Set(src)
 	}
 }
